@@ -176,8 +176,9 @@ var failTypes = map[string][]string{
 	FOverwrite: {"interpreter.OverwriteError", "*interpreter.OverwriteError"},
 	FTypeMis:   {"interpreter.ForceCastTypeMismatchError", "*interpreter.ForceCastTypeMismatchError", "interpreter.StoredValueTypeMismatchError", "*interpreter.StoredValueTypeMismatchError"},
 	FNil:       {"interpreter.ForceNilError", "*interpreter.ForceNilError"},
-	FIndex:     {"interpreter.ArrayIndexOutOfBoundsError", "*interpreter.ArrayIndexOutOfBoundsError"},
-	FSlice:     {"interpreter.ArraySliceIndicesError", "*interpreter.ArraySliceIndicesError", "interpreter.InvalidSliceIndexError", "*interpreter.InvalidSliceIndexError"},
+	// (an Int index that does not fit in 64 bits fails with the overflow error: a failure of the index conversion)
+	FIndex:     {"interpreter.ArrayIndexOutOfBoundsError", "*interpreter.ArrayIndexOutOfBoundsError", "interpreter.OverflowError", "*interpreter.OverflowError"},
+	FSlice:     {"interpreter.ArraySliceIndicesError", "*interpreter.ArraySliceIndicesError", "interpreter.InvalidSliceIndexError", "*interpreter.InvalidSliceIndexError", "interpreter.OverflowError", "*interpreter.OverflowError"},
 	FPanic:     {"stdlib.PanicError", "*stdlib.PanicError"},
 	FAssert:    {"stdlib.AssertionError", "*stdlib.AssertionError"},
 	FCondition: {"interpreter.ConditionError", "*interpreter.ConditionError"},
